@@ -577,6 +577,61 @@ func generate() {
 		}
 	}
 
+	// ---- (5c) write errors in the middle of a save: EFBIG at every offset of the new image
+	{
+		titled := func(i int, title string, sub []*spec) *spec {
+			f := folder(i, sub)
+			copy(f.title, title)
+			return f
+		}
+		trees := [][]*spec{
+			// boards first, then only folders / titles / lines up to the end of the file
+			{board(0), board(1), board(2), titled(0, "alpha", []*spec{line(0)}), titled(1, "beta", []*spec{line(0)}), titled(2, "gamma", nil)},
+			{line(0), titled(0, "only folders and lines", []*spec{titled(0, "x", []*spec{line(0), line(1)})}), line(1)},
+		}
+		if th {
+			trees = append(trees,
+				[]*spec{titled(0, "t", []*spec{board(0)}), line(0), board(0)},
+				[]*spec{},
+				[]*spec{board(0), board(1), board(2), titled(0, "a", []*spec{line(0)}), titled(1, "b", []*spec{line(0)}), titled(2, "c", []*spec{line(0)}), titled(3, "d", []*spec{line(0)}), titled(4, "e", []*spec{line(0)}), titled(5, "f", []*spec{line(0)})},
+			)
+			for i := 0; i < 6; i++ {
+				budget := 25
+				trees = append(trees, randItemsM(r, 3, 5, &budget, true, true))
+			}
+		}
+		olds := []string{oldImgHex(), "none"}
+		for ti, t := range trees {
+			img := validImage(t)
+			payload := strings.Fields(fmtTree(t))
+			old := olds[ti%2]
+			if err := efbigRun("save", 0, len(img)+1, old, payload); err != nil {
+				run.Note(err.Error())
+			}
+			for lim := 0; lim <= len(img)+1; lim++ {
+				do(strings.TrimSpace(fmt.Sprintf("efbig save %d %s %s", lim, old, fmtTree(t))))
+			}
+		}
+		contents := [][]byte{validImage(trees[0]), r.Bytes(300, nil)}
+		if th {
+			contents = append(contents, r.Bytes(5000, nil), []byte{1})
+		}
+		for ci, c := range contents {
+			old := olds[ci%2]
+			step := 1
+			if len(c) > 1000 {
+				step = 37
+			}
+			if err := efbigRun("wf", 0, len(c)+1, old, []string{hx.Hex(c)}); err != nil {
+				run.Note(err.Error())
+			}
+			for lim := 0; lim <= len(c)+1; lim += step {
+				do(fmt.Sprintf("efbig wf %d %s %s", lim, old, hx.Hex(c)))
+			}
+		}
+		efbigCache = map[string]string{}
+	}
+
 	// ---- (5b) overlapping saves of one user's favourites
 	{
 		n, ms := 2, 600
@@ -646,3 +701,5 @@ func repeatBytes(b []byte, n int) []byte {
 	}
 	return out
 }
+
+func oldImgHex() string { return hx.Hex(validImage([]*spec{board(0), board(1)})) }
